@@ -40,6 +40,7 @@ KEY_MULTI = "MultiBWR:conjugate"
 KEY_LS = "BWR_LS:width-m-over-m0"
 KEY_GS32 = "GS_rho:float32-constants"
 KEY_CP32 = "BWR_coupling:float32-normalisation"
+KEY_Q032 = "Bprime_q2:python-float-q0:float32"
 PI32 = 3.1415927410125732  # float32(3.14159265359)
 
 
@@ -888,6 +889,20 @@ def search(ctx, res):
             if list(tab[L]) != want:
                 fail("%s:table:L=%d" % (which, L), "%s(L=%d) uses coefficients %s, |theta_L(i w)|^2 has %s" % (which, L, [str(c) for c in tab[L]], [str(c) for c in want]),
                      {"kind": "table", "which": which, "L": L})
+    # (0b) "barrier factors equal one at q = q0" also when |q0|^2 arrives as a plain Python float (how amp.core passes
+    # it when all three masses of a decay are Python floats): a tf.cast of a Python float goes through float32
+    import tensorflow as tf
+    from tf_pwa import breit_wigner as bw
+    worst32 = 0.0
+    for L in range(1, 5):
+        for q2v in (0.3721, 1.0 / 3.0, 2.718281828459045):
+            got = float(bw.Bprime_q2(L, tf.constant(q2v, dtype=tf.float64), float(q2v), 3.0).numpy())
+            nchk += 1
+            worst32 = max(worst32, abs(got - 1.0))
+            if abs(got - 1.0) > 1e-12:
+                fail(KEY_Q032, "Bprime_q2(L=%d, q2, q02, d=3) with q02 a Python float equal to q2 = %r returns %.17g, not 1: the Python float is cast through float32 (relative error ~1e-8 in every barrier factor whose masses are Python floats)" % (L, q2v, got),
+                     {"kind": "q0-python-float", "L": L, "q2": q2v})
+    res.coverage["Bprime_q2_python_float_q0_worst_dev_from_1"] = worst32
     # (1) functions of tf_pwa.breit_wigner
     for f in fcs:
         if f["spec"] is None:
